@@ -64,7 +64,7 @@ def matrix(seg):
     return [seg.get_seg_id(), m]
 
 
-def read_all(src, bufsize=None, resume_at=None):
+def read_all(src, bufsize=None, resume_at=None, opts=None):
     """-> list of (matrix, errors, formatted) or raises.  resume_at=k: leave the loop after k segments and go on
     with a second loop over the same reader (the stream must simply continue)"""
     import pyx12.x12file, pyx12.rawx12file
@@ -73,6 +73,9 @@ def read_all(src, bufsize=None, resume_at=None):
         pyx12.rawx12file.DEFAULT_BUFSIZE = bufsize
     try:
         rd = pyx12.x12file.X12Reader(src)
+        for k in sorted(opts or {}):
+            assert hasattr(rd, k), k
+            setattr(rd, k, opts[k])
         out = []
         if resume_at:
             for seg in rd:
@@ -133,8 +136,14 @@ def reread_ok(text, got):
     return []
 
 
-def run_one(text, bufsize, prefix=None, policy=None, kind='stringio', tag=None, resume_at=None):
+def run_one(text, bufsize, prefix=None, policy=None, kind='stringio', tag=None, resume_at=None, opts=None):
     """one execution -> (violations or None, ctx)"""
+    if opts:
+        try:
+            got = read_all(io.StringIO(text), bufsize, None, opts)
+        except Exception as e:
+            return [('C01|options|raises %s@%s' % (type(e).__name__, core.where(e)), 'text=%r, reader options %r: %r' % (text[106:], opts, e))], None
+        return judge(text, got, 'options'), None
     if resume_at:
         try:
             got = read_all(io.StringIO(text), bufsize, resume_at)
@@ -185,7 +194,7 @@ def run_one(text, bufsize, prefix=None, policy=None, kind='stringio', tag=None, 
 
 
 def evaluate(case):
-    v, _ = run_one(case['text'], case.get('bufsize'), case.get('choices'), case.get('policy'), case.get('kind', 'stringio'), resume_at=case.get('resume_at'))
+    v, _ = run_one(case['text'], case.get('bufsize'), case.get('choices'), case.get('policy'), case.get('kind', 'stringio'), resume_at=case.get('resume_at'), opts=case.get('opts'))
     return v or []
 
 
@@ -324,6 +333,33 @@ def work_kinds(shard):
     return P
 
 
+def option_segments(d):
+    """segments the reader's optional checks look at (the 837 service-line counter: CLM resets it, LX is compared with it)"""
+    seg, ele, sub = d
+    return [x + seg for x in ('CLM' + ele + '1', 'LX' + ele + '1', 'LX' + ele + '2', 'LX' + ele + '4', 'LX' + ele + '01', 'LX' + ele + 'A' + sub + '1', 'LX', 'ST' + ele + '837' + ele + '0001', 'SE' + ele + '2' + ele + '0001')]
+
+
+def work_options(shard):
+    """the reader with its optional checks switched on still only reports: what it hands over is what is in the text"""
+    d, icvn, n, first = shard
+    P = core.Part()
+    hdr = ref.isa(icvn, *d)
+    al = option_segments(d)
+    for k in range(0, n):
+        for rest in itertools.product(al, repeat=k):
+            text = hdr + first + ''.join(rest)
+            for bs in (None, 3):
+                v, _ = run_one(text, bs, opts={'check_837_lx': True})
+                P.n += 1
+                if v is None:
+                    P.counters['unspecified_by_statement'] += 1
+                    continue
+                P.out('options|%d' % (k + 1))
+                for key, msg in v:
+                    P.bad(key, {'text': text, 'bufsize': bs, 'opts': {'check_837_lx': True}}, msg)
+    return P
+
+
 def isa_variants(d, icvn):
     """well-formed ISA headers whose fixed-width fields contain the component separator (and blanks)
     at the first / middle / last position of ISA02, ISA04, ISA06, ISA08 -- singly and all at once"""
@@ -412,12 +448,15 @@ def run(R):
     nR = 5 if T else 4
     R.pmap(work_resume, [(std, '00401', first, nR, [None, 3]) for first in [None] + alphabet(std)])
     R.pmap(work_kinds, [(std, '00401', 4 if T else 3), (('!', '|', '>'), '00501', 3)])
+    nO = 5 if T else 4
+    R.pmap(work_options, [(d, icvn, nO, f) for d, icvn in ((std, '00401'), (('!', '|', '>'), '00501')) for f in option_segments(d)])
     R.bounds = {'A': 'all bodies of length <= %d over {A,1,ele,sub,seg,LF,CR,SP}, both versions, buffer 8192' % nA,
                 'B': 'all bodies <= %d x buffer sizes {1,2,3,5,8} x every read schedule with <= %d short reads (+ one-char and short-by-one schedules)' % (nB, devB),
                 'C': '%d delimiter triples x all bodies <= %d x buffer {8192,3}' % (len(triples(T)) - 1, nC),
                 'windows': 'every character of 6 tails at every offset -%d..+%d around 106+8192 and 106+2*8192, incl. a segment longer than the buffer; plus segments of 16 264 .. 32 773 characters (longer than two / four buffers)' % (span, span),
                 'isa fields': '%d delimiter triples x 2 versions x 14 headers with the component separator inside ISA02/04/06/08/09 x all bodies <= %d (+ the header repeated mid-stream) x {default, buffer 3, one-char reads}' % (len(triples(T)), 3 if T else 2),
                 'resume': 'all bodies <= %d x buffer {8192, 3} x every k: the consumer leaves its loop after k segments and iterates the same reader again' % nR,
+                'reader options': 'the reader with check_837_lx switched on (as the validator, the context reader and x12metadata do for 837 maps): every sequence of <= %d segments over {CLM, LX*1, LX*2, LX*4, LX*01, LX*A:1, LX, ST, SE}, 2 delimiter triples, buffer {8192, 3}' % nO,
                 'source kinds': 'StringIO, open text file, path string, and StringIO / open file positioned behind a header line or an earlier interchange, on all CR-free bodies <= %d' % (4 if T else 3)}
     R.assumptions = ['blanks and line breaks in front of a segment are dropped in whatever order they come (the two documented normalisations compose); pieces whose leading blanks are followed by TAB / VT / FF, and blank-only pieces, are left open by the statement and are skipped (counted)',
                      'path/file source kinds are compared on CR-free texts only (text mode translates CR)',
